@@ -43,7 +43,7 @@ class AnalysisContext:
     def results(self) -> "AnalysisResults":
         return AnalysisResults(pickled=self.pickled, results=self.previous_results)
 
-    def shorten_code(self, ast_node) -> Tuple[str, bool]:
+    def shorten_code(self, ast_node, mark_reported: bool = True) -> Tuple[str, bool]:
         code = unparse(ast_node).strip()
         if len(code) > 32:
             cutoff = code.find("(")
@@ -54,7 +54,8 @@ class AnalysisContext:
         else:
             shortened_code = code
         was_already_reported = shortened_code in self.reported_shortened_code
-        self.reported_shortened_code.add(shortened_code)
+        if mark_reported:
+            self.reported_shortened_code.add(shortened_code)
         return shortened_code, was_already_reported
 
 
@@ -285,7 +286,9 @@ class BadCalls(Analysis):
 
     def analyze(self, context: AnalysisContext) -> Iterator[AnalysisResult]:
         for node in context.pickled.properties.calls:
-            shortened, already_reported = context.shorten_code(node)
+            # BadCalls only reports the calls in BAD_CALLS, so it must not mark every other call as
+            # "already reported": that would silence OvertlyBadEvals' finding for them
+            shortened, already_reported = context.shorten_code(node, mark_reported=False)
             if any(shortened.startswith(f"{c}(") for c in self.BAD_CALLS):
                 yield AnalysisResult(
                     Severity.OVERTLY_MALICIOUS,
